@@ -196,6 +196,12 @@ func liteObs(n *chainx.Node, maxID int32, hashes []util.Uint160) (o map[string]s
 			es = append(es, fmt.Sprintf("%s=%s", v.Key.StringCompressed()[:10], v.Votes))
 		}
 		o["enrollments"] = strings.Join(es, ",")
+		// ext_epoch: native getters through test invocations (served by the native caches)
+		nr, e := nativeReads(n, hashes)
+		if e != nil {
+			panic(chainx.Failure{Msg: "native getters: " + e.Error()})
+		}
+		o["native_reads"] = nr
 	})
 	return
 }
@@ -315,7 +321,22 @@ func tplByName(names ...string) []chainx.Tpl {
 			}
 		}
 		if !found {
-			out = append(out, chainx.TplByName(n)...)
+			for _, t := range chainx.Templates() {
+				if t.Name == n {
+					out = append(out, t)
+					found = true
+				}
+			}
+		}
+		if !found {
+			// ext_epoch: parametric and composite (a+b) block templates
+			if t, ok := resolveTpl(n); ok {
+				out = append(out, t)
+				found = true
+			}
+		}
+		if !found {
+			panic("no template " + n)
 		}
 	}
 	return out
@@ -325,7 +346,7 @@ func tplByName(names ...string) []chainx.Tpl {
 // a second reference replica to record the observation at every height, and
 // extracts the state tries / storage item lists of the given sync points.
 func buildSource(f famT, names []string, points []uint32) (*srcT, error) {
-	s := &srcT{fam: f, cf: f.family(), names: names, id: f.Name + ":" + strings.Join(names, ","), tries: map[uint32]*trieT{}, items: map[uint32][]storage.KeyValue{}, alien: map[uint32][][]byte{}}
+	s := &srcT{fam: f, cf: f.family(), names: names, id: f.Name + ":" + histAlias(names), tries: map[uint32]*trieT{}, items: map[uint32][]storage.KeyValue{}, alien: map[uint32][][]byte{}}
 	var uniq []string
 	idx := map[string]int{}
 	for _, n := range names {
@@ -339,6 +360,9 @@ func buildSource(f famT, names []string, points []uint32) (*srcT, error) {
 		return nil, fmt.Errorf("preamble: %w", err)
 	}
 	s.sc = sc
+	if epochDebug {
+		sc.OnTx = func(tpl, st string) { fmt.Printf("epoch-debug: %s: tx of %s -> %s\n", f.Name, tpl, st) }
+	}
 	h := make([]int, len(names))
 	for i, n := range names {
 		h[i] = idx[n]
@@ -385,6 +409,15 @@ func buildSource(f famT, names []string, points []uint32) (*srcT, error) {
 			return nil, err
 		}
 		s.mptd = append(s.mptd, md)
+	}
+	if epochDebug {
+		for hh := 1; hh <= int(s.tip); hh++ {
+			fmt.Printf("epoch-debug: %s h=%d committee=%s validators=%s\n", f.Name, hh, s.lite[hh]["committee"], s.lite[hh]["next_validators"])
+		}
+		if s.tip >= 11 {
+			fmt.Printf("epoch-debug: aers at 11: %s\n", s.obs[10].AERs)
+		}
+		fmt.Printf("epoch-debug: reads at tip: %s\n", s.lite[s.tip]["native_reads"])
 	}
 	mod := src.BC.GetStateSyncModule()
 	// rootAt: the state root a peer / state source announces for height p (with
